@@ -47,7 +47,7 @@ def poly_aux(ctx, n):
     lits = ["(%s, %s, %s, %s, %s)" % (PL.cq_poly(p), PL.cq_poly(q), vlib.cq_bool(e),
                                       vlib.cq_list([vlib.cq_list(["(%d, %d)" % tuple(d) for d in t]) for t in ev]), vlib.cq_bool(si))
             for p, q, e, ev, si in cases]
-    ok, out = vlib.coq_eval(f"unit_poly_aux_{ctx.cid}", POLY_HEADER + "Definition cases := " + vlib.cq_list(lits) + ".\nEval vm_compute in bad 0 cases.\n")
+    ok, out = vlib.coq_eval(f"unit_poly_aux_{ctx.cid}", POLY_HEADER + "Definition cases : list (poly * poly * bool * list (list delta) * bool) := " + vlib.cq_list(lits) + ".\nEval vm_compute in bad 0 cases.\n")
     vals = vlib.parse_eval_results(out)
     if not ok or not vals:
         mism.append("stream poly-aux: coqc failed: " + out[-300:])
@@ -158,7 +158,7 @@ def rel_chain_fix(ctx, n, failing=None, cid="C10"):
             sl = vlib.cq_list(["(%s, %s, %s)" % (vlib.cq_list([vlib.cq_str(v) for v in vs_]), vlib.cq_str(x), vlib.cq_list([PL.cq_poly(p) for p in vec])) for vs_, x, vec in stmts])
             rows = vlib.cq_list([vlib.cq_list([PL.cq_poly(p) for p in row]) for row in fd["matrix"]])
             lits.append("(%s, Rel %s %s)" % (sl, vlib.cq_list([vlib.cq_str(v) for v in fd["vars"]]), rows))
-        jobs.append((f"unit_chain_{ctx.cid}_{si}", REL_HEADER + "Definition cases := " + vlib.cq_list(lits) + ".\nEval vm_compute in bad 0 cases.\n"))
+        jobs.append((f"unit_chain_{ctx.cid}_{si}", REL_HEADER + "Definition cases : list (list (list string * string * list poly) * rel) := " + vlib.cq_list(lits) + ".\nEval vm_compute in bad 0 cases.\n"))
     outs = vlib.coq_eval_many(jobs, timeout=900)
     for si, sh in enumerate(shards):
         ok, out = outs[f"unit_chain_{ctx.cid}_{si}"]
